@@ -1,4 +1,5 @@
 import FstVerif.Proofs.Seek
+import FstVerif.Proofs.Wrappers
 import FstVerif.Proofs.EndToEnd
 /-
 C03 — range streams. Statements here; proofs in Proofs/Stream.lean (explicit
@@ -74,5 +75,33 @@ theorem C03_file (rows cols ty : Nat) (hty : ty < 2^64) (kvs : KV) (hs : SortedK
   E2E.e2e_range rows cols ty hty kvs hs hv hn
 
 example : GoodStore StreamExample.exStore StreamExample.exDen := StreamExample.exGood
+
+
+/-! ### the wrapper layer a user calls (src/map.rs, src/set.rs; Model/Wrappers.lean) -/
+
+/-- `map.range().ge/gt/le/lt(..)…into_stream()` for every chain of setter calls (every
+`RangeSpec` is one, `C03_rangeSpec_reachable`): exactly the entries within the bounds -/
+theorem C03_map_range (hg : GoodStore s den) (hr : Represents acc s) (root : Nat)
+    (hroot : root = 0 ∨ ∃ n, (root, n) ∈ s) (rs : RangeSpec) :
+    ∃ N, ∀ fuel, N ≤ fuel → Wrap.mapRange acc root rs fuel =
+      some ((den root).filter fun kv => lowerOK rs.min kv.1 && upperOK rs.max kv.1) :=
+  Wrap.mapRange_correct hg hr root hroot rs
+
+/-- `set.range()…`: the keys of the same entries -/
+theorem C03_set_range (hg : GoodStore s den) (hr : Represents acc s) (root : Nat)
+    (hroot : root = 0 ∨ ∃ n, (root, n) ∈ s) (rs : RangeSpec) :
+    ∃ N, ∀ fuel, N ≤ fuel → Wrap.setRange acc root rs fuel =
+      some (((den root).filter fun kv => lowerOK rs.min kv.1 && upperOK rs.max kv.1).map (·.1)) :=
+  Wrap.setRange_correct hg hr root hroot rs
+
+theorem C03_rangeSpec_reachable (rs : RangeSpec) : ∃ l : List Wrap.Setter, Wrap.applySetters l = rs :=
+  Wrap.rangeSpec_reachable rs
+
+/-- `Map::keys` and `Map::values` are the two projections of `Map::stream` (same length, same order);
+the `into_byte_keys` / `into_values` collectors likewise -/
+theorem C03_keys_values (raw : List (Key × Nat)) :
+    (Wrap.mapKeys raw).zip (Wrap.mapValues raw) = Wrap.mapStream raw ∧
+    (Wrap.intoByteKeys raw).zip (Wrap.intoValues raw) = Wrap.intoByteVec raw :=
+  ⟨(Wrap.keys_values_zip raw).1, (Wrap.intoByteKeys_intoValues_zip raw).1⟩
 
 end Fst.Props
